@@ -216,6 +216,9 @@ func vh_C03_flow_two() {
 	if l1.cookie == nil || l2.cookie == nil {
 		return
 	}
+	if l1.cookie.Name == l2.cookie.Name && f.p.CookieOptions.CSRFPerRequest {
+		verifIdealOnly() // two fresh states whose hashes share the 8-character prefix
+	}
 	which := ndChoice("complete-login", 2)
 	l, o := l1, l2
 	if which == 1 {
